@@ -13,8 +13,50 @@ def annotate(x, rng, p=0.8):
         for y in x: annotate(y, rng, p)
     elif isinstance(x, dict):
         if x.get("k") == "bin" and "m" not in x and x.get("op") in BY_OP and rng.random() < p:
-            ms = [m for m in BY_OP[x["op"]] if m not in ("equals", "not_equals") or (isinstance(x.get("r"), dict) and x["r"].get("k") == "col")]
+            def ok(m):
+                r = x.get("r") if isinstance(x.get("r"), dict) else {}
+                if m in ("equals", "not_equals"): return r.get("k") == "col"
+                if m == "in_tuples": return r.get("k") == "tuple" and all(isinstance(y, dict) and y.get("k") == "vals" for y in r.get("es", []))
+                return True
+            ms = [m for m in BY_OP[x["op"]] if ok(m)]
             if ms: x["m"] = rng.choice(ms)
+        # a third of the eligible nodes go through the `Expr` struct (Expr::expr(operand).method(..)) instead of ExprTrait on SimpleExpr
+        k = x.get("k")
+        if "x" not in x and rng.random() < 0.33:
+            if k == "bin" and x.get("m") in VIA_STRUCT_BIN: x["x"] = True
+            elif k in ("not", "between", "in", "insub", "isnull", "cast", "asenum") and isinstance(x.get("e"), dict): x["x"] = True
+            elif k == "like" and not x.get("ci") and isinstance(x.get("e"), dict): x["x"] = True
+            elif k == "fn" and ((x.get("f") in ("Max", "Min", "Sum", "Count", "CountDistinct") and len(x.get("args", [])) == 1) or (x.get("f") == "IfNull" and len(x.get("args", [])) == 2)): x["x"] = True
         for v in x.values():
             if isinstance(v, (dict, list)): annotate(v, rng, p)
+    return x
+
+VIA_STRUCT_BIN = {"eq", "ne", "gt", "gte", "lt", "lte", "add", "sub", "mul", "div", "modulo", "left_shift", "right_shift", "is", "is_not", "equals", "not_equals", "in_tuples"}
+
+# ---- statement-level "sugar" methods (spec/stmt_methods.json; read by StmtLaw.tla as well) -------------
+STMT_TABLE = json.load(open(os.path.join(SPEC, "stmt_methods.json")))
+def _applicable(c, kind):
+    out = []
+    for m, t in STMT_TABLE.items():
+        if t["op"] != c.get("op") or kind not in t.get("on", ["select"]): continue
+        if t.get("needs") == "one_col" and not (isinstance(c.get("r"), dict) and len(c["r"].get("cols", [])) == 1): continue
+        if t.get("needs") == "all" and not (isinstance(c.get("r"), dict) and c["r"].get("all")): continue
+        if "jt" in t and (t["jt"] != c.get("jt") or "a" in c): continue
+        if "type" in t and (t["type"] != c.get("type") or c.get("tables") or c.get("behavior")): continue
+        if t.get("needs") == "col" and not (isinstance(c.get("e"), dict) and c["e"].get("k") == "col"): continue
+        out.append(m)
+    return out
+
+def annotate_calls(x, rng, p=0.5):
+    """in place: calls of SELECT statements (at any nesting depth) get the equivalent method to go through"""
+    if isinstance(x, list):
+        for y in x: annotate_calls(y, rng, p)
+    elif isinstance(x, dict):
+        if x.get("kind") in ("select", "update", "delete", "insert") and isinstance(x.get("calls"), list):
+            for c in x["calls"]:
+                if "m" not in c and rng.random() < p:
+                    ms = _applicable(c, x["kind"])
+                    if ms: c["m"] = rng.choice(ms)
+        for v in x.values():
+            if isinstance(v, (dict, list)): annotate_calls(v, rng, p)
     return x
